@@ -261,7 +261,7 @@ fn run_shard(ctx: &ShardCtx, acc: &mut Acc) {
             }
         }
     }
-    drive(ctx, "loops", ctx.tier.pick(30_000, 300_000), 500, acc, &|ch, acc| {
+    drive(ctx, "loops", ctx.tier.pick(90_000, 400_000), 500, acc, &|ch, acc| {
         let c = gen_case(ch);
         acc.sample(|| json!({ "bytes": hex::encode(&c.bytes), "config": c.cfg, "shape": c.shape, "asm": asm::disasm(&c.bytes) }));
         check_case(&c, acc)
